@@ -750,7 +750,11 @@ fn gen_parsers(
 
     let genned = if let Some(access) = update {
         quote_spanned! { field.span()=>
-            if #arg_matches.contains_id(#id) {
+            // Only fields named by the user change: a value that merely comes from a default
+            // (also the implied default of a flag) must not reset the existing field
+            if #arg_matches.contains_id(#id)
+                && #arg_matches.value_source(#id) != Some(clap::parser::ValueSource::DefaultValue)
+            {
                 #access
                 *#field_name = #field_value
             }
